@@ -95,6 +95,16 @@ def _contact(draw):
     spec = {"kind": "contact", "spheres": spheres, "gravity": [draw(gen.f(-2, 2)), draw(gen.f(-2, 2)), -G],
             "spring": draw(st.booleans()), "k": draw(gen.f(1, 30))}
     spec["reject"] = draw(st.sampled_from([None, None, None, "penetration", "approaching"]))
+    # the whole scene (plane, spheres, gravity) is placed by a rotation up to pi: the plane normal points anywhere
+    spec["placement"] = draw(gen.rotvec(min_exp=-1, near_max=False)) if draw(st.booleans()) else [0.0, 0.0, 0.0]
+    if draw(st.integers(0, 3)) == 0:
+        # the plane tilts in time about an in-plane axis (theta(0) = 0); the spheres move with it. Frictionless only: the
+        # slip kinematics of Sphere2Plane are stated for planes of constant orientation (C06)
+        a = draw(gen.f(0.0, 6.28))
+        spec["plane_spin"] = {"axis": [float(np.cos(a)), float(np.sin(a)), 0.0], "b1": draw(gen.f(-1.5, 1.5)),
+                              "b2": draw(gen.f(-0.5, 0.5)), "w2": draw(gen.f(0.5, 3.0))}
+        for sph in spheres:
+            sph["mu"] = 0.0
     return spec
 
 
@@ -171,8 +181,19 @@ def build_system(spec):
             system.add(sysbuild.make_actuator(spec["actuator"], joints[0]))
             info["has_special"] = True
     elif kind == "contact":
-        ground = Frame(name="ground")
+        psiR = np.array(spec.get("placement", [0.0, 0.0, 0.0]), dtype=float)
+        R0 = gen._exp(psiR)
+        aR = float(np.linalg.norm(psiR))
+        qR = np.concatenate([[np.cos(aR / 2)], np.sin(aR / 2) * psiR / aR]) if aR > 0 else np.array([1.0, 0, 0, 0])
+        spin = spec.get("plane_spin")
+        motion = {"c0": [0.0, 0.0, 0.0], "psi0": psiR.tolist()}
+        om_pl = np.zeros(3)  # angular velocity of the plane at t0 in plane coordinates
+        if spin:
+            motion.update(axis=spin["axis"], b1=spin["b1"], b2=spin["b2"], w2=spin["w2"])
+            om_pl = np.array(spin["axis"]) * (spin["b1"] + spin["b2"] * spin["w2"])
+        ground = build.make_frame(motion, name="ground") if (spin or aR > 0) else Frame(name="ground")
         system.add(ground)
+        grav = R0 @ np.array(spec["gravity"], dtype=float)
         for i, s in enumerate(spec["spheres"]):
             bs = dict(s["body"])
             if spec["reject"] == "penetration" and i == 0:
@@ -180,9 +201,16 @@ def build_system(spec):
             if spec["reject"] == "approaching" and i == 0:
                 bs["r"] = [bs["r"][0], bs["r"][1], s["radius"]]
                 bs["v"] = [bs["v"][0], bs["v"][1], -0.5]
+            # the sphere moves with the tilting plane, then the scene is placed
+            r_pl, v_pl = np.array(bs["r"], dtype=float), np.array(bs["v"], dtype=float)
+            P = np.array(bs["P"], dtype=float)
+            v_pl = v_pl + np.cross(om_pl, r_pl)
+            bs["omega"] = (np.array(bs.get("omega", [0.0] * 3), dtype=float) + gen.quat_to_R(P).T @ om_pl).tolist()
+            bs["r"], bs["v"] = (R0 @ r_pl).tolist(), (R0 @ v_pl).tolist()
+            bs["P"] = np.array([qR[0] * P[0] - qR[1:] @ P[1:], *(qR[0] * P[1:] + P[0] * qR[1:] + np.cross(qR[1:], P[1:]))]).tolist()
             b = build.make_body(bs, name=f"sphere{i}")
             system.add(b)
-            system.add(Force(np.array(spec["gravity"]) * bs["mass"], b, name=f"gravity{i}"))
+            system.add(Force(grav * bs["mass"], b, name=f"gravity{i}"))
             system.add(Sphere2Plane(ground, b, mu=s["mu"], r=s["radius"], e_N=s["e_N"], name=f"contact{i}"))
             if s["state"] != "open":
                 info["has_special"] = True
@@ -270,6 +298,13 @@ def check(spec):
         gN = S.g_N(t0, q0)
         gNd = S.g_N_dot(t0, q0, u0)
         gNdd = S.g_N_ddot(t0, q0, u0, ud)
+        # the gap acceleration along the returned accelerations, differenced independently of the contact's own
+        # g_N_ddot (which the consistency solve itself uses)
+        from harness.numdiff import directional
+        qd0 = S.q_dot(t0, q0, u0)
+        num, dis = directional(lambda e: S.g_N_dot(t0 + e, q0 + e * qd0, u0 + e * ud), 1e-3)
+        if dis < 1e-7 * (1 + float(np.max(np.abs(ud)))):
+            gNdd = np.asarray(num, dtype=float)
         gF = S.gamma_F(t0, q0, u0) if S.nla_F else np.zeros(0)
         gFd = S.gamma_F_dot(t0, q0, u0, ud) if S.nla_F else np.zeros(0)
         ftol = 1e-6 * scale
@@ -321,6 +356,9 @@ def check(spec):
             res.label("contact:closed")
     res.nontrivial = bool(info["has_constraint"] and info["has_special"])
     res.label(f"kind:{kind}")
+    if kind == "contact":
+        res.label("plane:tilting" if spec.get("plane_spin") else "plane:constant",
+                  "plane:placed" if np.any(np.array(spec.get("placement", [0, 0, 0])) != 0) else "plane:horizontal")
     if "actuator" in spec:
         res.label("actuator:" + spec["actuator"]["type"])
     if "law" in spec:
